@@ -41,3 +41,12 @@ func (v *VerifCalculator) PreProcess() { v.c.preProcess() }
 func (v *VerifCalculator) ComputeOverSubRes() apis.Resource { return v.c.computeOverSubRes() }
 
 func (v *VerifCalculator) RefreshCfg(cfg *api.ColocationConfig) error { return v.c.RefreshCfg(cfg) }
+
+// WrapProbeForVerif gives the synchronous steps of a calculator that was built by the
+// real NewCalculator (registered policy, metric collector manager, config getters).
+func WrapProbeForVerif(p framework.Probe) *VerifCalculator {
+	return &VerifCalculator{c: p.(*historicalUsageCalculator)}
+}
+
+// Queue returns the samples the calculator currently averages over.
+func (v *VerifCalculator) Queue() []apis.Resource { return v.c.queue.GetAll() }
